@@ -220,6 +220,8 @@ def report(prop, tier, seed, spec, results, kani_results, wall):
                 extra['note2'] = 'the function was restructured: %d proof hints of the unit could not be placed and were dropped; the obligation above passed on the unchanged tree and fails now' % len(lost)
             path = write_replay(prop, unit, rec, extra)
             print('failed obligation: %s' % oid)
+            for leaf in (rec.get('expanded') or [])[:3]:
+                print('  failing conjunct: %s' % leaf[:300])
             o = rec.get('site_origin') or rec.get('origin')
             if o and o[1]:
                 print('  at %s:%s' % (o[1], o[2]))
